@@ -97,13 +97,20 @@ fn run_case_inner(tree: &Snap, invocations: &[Vec<String>]) -> Vec<String> {
             }
         }
         let (_, meta_before) = { let _ = &meta_before; snapshot(&base) };   // link counts changed ctime: re-read
-        let mut args: Vec<String> = vec!["push".to_string(), "-d".to_string(), base.to_str().unwrap().to_string()];
+        // one invocation in five runs the way the tool is mostly used: in the working directory itself, without
+        // -d (then every path the tool builds is relative: `base_dir` is the empty path).  Which ones: decided by
+        // the invocation's text, so that a replay does the same.
+        let in_cwd = inv.iter().map(|a| a.bytes().map(|b| b as usize).sum::<usize>()).sum::<usize>() % 5 == 0;
+        let old_cwd = std::env::current_dir().unwrap();
+        let mut args: Vec<String> = if in_cwd { std::env::set_current_dir(&base).unwrap(); vec!["push".to_string()] }
+            else { vec!["push".to_string(), "-d".to_string(), base.to_str().unwrap().to_string()] };
         args.extend(inv.iter().cloned());
         // stderr of the tool goes to a file for this invocation: the "Patch <name> FAILED" line is an observable
         let err_path = dir.path().join(format!("stderr{}", inv_no));
         let err_file = std::fs::File::create(&err_path).unwrap();
         unsafe { libc::dup2(std::os::unix::io::AsRawFd::as_raw_fd(&err_file), 2); }
         let r = std::panic::catch_unwind(|| crate::cmd::run(args.iter()));
+        if in_cwd { std::env::set_current_dir(&old_cwd).unwrap(); }
         unsafe { let null = libc::open(b"/dev/null\0".as_ptr() as *const libc::c_char, libc::O_WRONLY); libc::dup2(null, 2); libc::close(null); }
         drop(err_file);
         let err_text = std::fs::read(&err_path).unwrap_or_default();
